@@ -4,6 +4,7 @@
 
 mod dispatch;
 mod gen;
+mod guards;
 mod scan;
 mod statics;
 mod trans;
@@ -45,6 +46,7 @@ fn run(src: &Path, out: &Path) -> R<()> {
     let modf = gen::gen_mod(&world)?;
     let disp = dispatch::gen_dispatch(&cr)?;
     let stat = statics::gen_statics(&cr)?;
+    let guards = guards::gen_guards(&cr, &world.error_ctors)?;
 
     for (name, text) in [
         ("GenConsts.v", &consts.text),
@@ -52,6 +54,7 @@ fn run(src: &Path, out: &Path) -> R<()> {
         ("GenMod.v", &modf),
         ("GenDispatch.v", &disp),
         ("GenStatics.v", &stat),
+        ("GenGuards.v", &guards),
     ] {
         let p: PathBuf = out.join(name);
         let status = write_if_changed(&p, text)?;
